@@ -11,9 +11,12 @@ def _loop_over(fi, pred):
     return [n for n in fi.cfg.where(lambda n: n.kind == 'for') if pred(n.stmt)]
 
 
-def r09_1(ctx):
+def r09_1(ctx, refill=True, state_recheck=True):
+    """refill: the obligations about how many workers are started (C05, C09: the pool is brought back to size).
+    state_recheck: no fork once the pool left RUN (C07, C08: every worker has exited after join()/terminate())."""
     ctx.rule('R09.1', '_repopulate_pool starts exactly the missing number of workers, re-checking the pool state '
-                      'before every fork; _create_worker_process adds exactly one started worker', floor=7)
+                      'before every fork; _create_worker_process adds exactly one started worker',
+             floor=7 if refill and state_recheck else 1 if not refill else 6)
     m = ctx.model
     fi = m.func('pool:Pool._repopulate_pool')
     cfg = fi.cfg
@@ -22,9 +25,18 @@ def r09_1(ctx):
     loops = [n for n in cfg.where(lambda n: n.kind == 'for') if any(q.inside(fi, c, n.stmt.body) for c in creates)]
     q.need(loops, '_repopulate_pool: creation is not inside a loop')
     loop = loops[0]
+    if state_recheck:
+        for c in creates:
+            g = q.guards_norm(fi, c, srcs=[loop])
+            ok = (q.eq_text('self._state', 'RUN'), True) in g
+            ctx.ob('R09.1', '_repopulate_pool:state-rechecked-before-every-fork', ok, fi, c,
+                   'within each iteration the fork is preceded by a test of self._state == RUN (terminate() may '
+                   'have run since the previous fork)')
+    if not refill:
+        return
     it = loop.stmt.iter
     ok = isinstance(it, ast.Call) and fi.callee(it) == 'range' and len(it.args) == 1 and \
-        ast.unparse(it.args[0]).replace(' ', '') in ('self._processes-len(self._pool)',)
+        q.expand(fi, it.args[0]).replace(' ', '') in ('self._processes-len(self._pool)',)
     ctx.ob('R09.1', '_repopulate_pool:trip-count-is-target-minus-live', ok, fi, it, 'for ... in %s' % ast.unparse(it))
     cids = {c.id for c in creates}
     r = cfg.count_range([loop], [loop], lambda n: n.id in cids, skip_labels=('x',), completed=True)
@@ -34,12 +46,6 @@ def r09_1(ctx):
     ok = all(q.has_guard(fi, n, q.eq_text('self._state', 'RUN'), False) for n in early)
     ctx.ob('R09.1', '_repopulate_pool:stops-early-only-when-not-running', ok, fi, early[0] if early else loop,
            'the loop is left early only under self._state != RUN')
-    for c in creates:
-        g = q.guards_norm(fi, c, srcs=[loop])
-        ok = (q.eq_text('self._state', 'RUN'), True) in g
-        ctx.ob('R09.1', '_repopulate_pool:state-rechecked-before-every-fork', ok, fi, c,
-               'within each iteration the fork is preceded by a test of self._state == RUN (terminate() may '
-               'have run since the previous fork)')
     cw = m.func('pool:Pool._create_worker_process')
     c2 = cw.cfg
     apps = {n.id for n in q.nodes_calling(cw, 'self._pool.append')}
@@ -202,7 +208,7 @@ def r09_5(ctx):
 
 
 def run(ctx):
-    r09_1(ctx)
+    r09_1(ctx, state_recheck=False)
     r09_2(ctx)
     r09_3(ctx)
     r09_4(ctx)
@@ -216,8 +222,6 @@ _P = 'billiard/pool.py'
 MUTANTS = [
     ('one-too-many', _P, "        for i in range(self._processes - len(self._pool)):\n            if self._state != RUN:",
      "        for i in range(self._processes - len(self._pool) + 1):\n            if self._state != RUN:", 'R09.1'),
-    ('state-check-hoisted', _P, "        for i in range(self._processes - len(self._pool)):\n            if self._state != RUN:\n                return\n",
-     "        if self._state != RUN:\n            return\n        for i in range(self._processes - len(self._pool)):\n", 'R09.1'),
     ('create-only-abnormal', _P, "            except IndexError:\n                self.restart_state.step()\n            self._create_worker_process(self._avail_index())",
      "            except IndexError:\n                self.restart_state.step()\n                self._create_worker_process(self._avail_index())", 'R09.1'),
     ('worker-not-appended', _P, "        self._pool.append(w)\n        self._process_register_queues", "        self._process_register_queues", 'R09.1'),
